@@ -1,6 +1,7 @@
 """C05 - dense-time online output does not depend on how the input is chunked."""
 import itertools
 import math
+import os
 from fractions import Fraction
 
 from hypothesis import strategies as st
@@ -18,7 +19,7 @@ PROPERTY = 'C05'
 RULE = ('Dense-time past fragment (once/historically/since bounded and unbounded, Boolean, arithmetic, predicates) and a pastified lane '
         '(bounded eventually/always, pastify() first) on grid signals of up to 6 samples per variable; a schedule cuts the input into '
         'successive update() calls: all at once, one sample per update, random common cut instants, and per-variable independent cuts '
-        '(one operand runs ahead); for one-variable cases with <= 5 samples ALL 2^(n-1) schedules are enumerated. Oracle: (i) every '
+        '(one operand runs ahead); lanes for unbounded operators under arbitrary schedules, bounded / pastified operators in one update and in several updates; for one-variable cases with <= 5 samples ALL 2^(n-1) schedules are enumerated for a fixed family of 12 formulas. Oracle: (i) every '
         'returned element is a [time, value] pair with finite time and the concatenation has non-decreasing time stamps; (ii) read as a '
         'step function it equals the grid reference R-ct (shifted by the horizon after pastify) at every cell start / midpoint it '
         'covers; (iii) two schedules of the same case agree wherever both cover. Non-trivial = >= 2 update calls, non-empty output and '
@@ -227,13 +228,11 @@ def classify(case):
 
 
 def check_finding(case):
-    """Finding lanes: only cases of the known class; every failure there carries the known key."""
+    """Lanes that concentrate on bounded operators fed in several updates (an open finding until the two fixes
+    9dbd380 / fa810ae in /repo; since then ordinary lanes: failures keep their own keys)."""
     if not classify(case):
-        return DISCARD('not-in-class')
-    v = check(case)
-    if v.status == 'fail':
-        return FAIL(KNOWN_KEY, '[%s]\n%s' % (v.key, v.detail), v.labels)
-    return v
+        return PASS(False, ['not-bounded-and-chunked'])
+    return check(case)
 
 
 def exhaustive(tier, seed, shard=0, nshards=1, bounded=False):
@@ -295,12 +294,11 @@ def exhaustive_bounded(tier, seed, shard=0, nshards=1):
 
 
 LANES = [
-    # main lanes: the open finding (bounded operators fed in several updates) is stepped around by construction
     Lane('unbounded_chunked', lambda tier: cases(tier, False, bounded=False), check, 3000, 40000, candidates),
     Lane('bounded_whole', lambda tier: cases(tier, False, chunked=False), check, 1500, 20000, candidates),
     Lane('pastified_whole', lambda tier: cases(tier, True, chunked=False), check, 1000, 15000, candidates),
     Lane('exhaustive', None, check, 1, 1, None, custom=exhaustive, shards=8),
-    # finding lanes: only cases of the known class
+    # bounded operators fed in several updates
     Lane('bounded_chunked', lambda tier: cases(tier, False), check_finding, 800, 8000, candidates),
     Lane('pastified_chunked', lambda tier: cases(tier, True), check_finding, 500, 5000, candidates),
     Lane('exhaustive_bounded', None, check_finding, 1, 1, None, custom=exhaustive_bounded, shards=4),
